@@ -552,4 +552,7 @@ def build_extra():
     c02 = C02.build()
     c02.pid = "C01d"
     c02.only_verify = ["EventManager._run_handlers_sequential"]
-    return [C, c13, c02]
+    # the switch controller is reached from inside event handlers (switch players, BCP, keyboard): recording a hold-time
+    # deadline must never call handlers or drain the queue synchronously (C03's contract set, restricted)
+    from . import C03
+    return [C, c13, c02, C03.timed_add_set("C01t")]
